@@ -41,8 +41,8 @@ def jobs(tier, seed):
     for i in range(0, len(seqs), per):
         out.append(('file', i, per, maxn))
     two = list(itertools.product(QS, repeat=2))
-    for i in range(0, len(two), 9):
-        out.append(('sock', 2, i, 9, 1, 4096))
+    for i in range(0, len(two), 3):
+        out.append(('sock', 2, i, 3, 1, 4096))
     for i in range(0, 20, 5):       # bufsize 3: many receives per sequence, the slowest runs of this check - small jobs
         out.append(('sock', 2, i, 5, 1, 3))
     rnd = random.Random(seed + 17)
